@@ -3,6 +3,7 @@ import OnlVerif.Lemmas.KAccess
 import OnlVerif.Lemmas.SplitStep
 import OnlVerif.Lemmas.SplitDemo
 import OnlVerif.Lemmas.SplitDemoTime
+import OnlVerif.Lemmas.SplitScript
 import OnlVerif.Props.C01
 /-!
 # C03 — runs are reproducible and unaffected by where they are stopped and resumed
@@ -293,18 +294,23 @@ theorem sentinel_gone_step (c : SplitCfg σ) (body : σ → Resume → Burst ℚ
 /-- **`run(until=t)` is transparent up to the renaming of event ids** (partial: under the four hypotheses listed above).
 If `run(until=t)` returns from a well-scoped, stop-free state `s` with `now < t`, it returns `None` in the state
 `c.afterSentinel sk` where `sk` is the state the uninterrupted run reaches after some `k <` budget normal steps: **the
-trace of the split run is the trace of the uninterrupted run with the ids renamed**, the clock is `t`, and the next
-entry of the uninterrupted run (if any) is not due before the sentinel's key `(t, URGENT, eid0)`. -/
+trace of the split run is the trace of the uninterrupted run with the ids renamed**; the clock is `t`; the returned state
+carries no stop; every entry processed was due before the sentinel's key `(t, URGENT, eid0)` — strictly before `t`, or
+at `t` itself, URGENT and queued before the sentinel —, and the next entry of the uninterrupted run (if any) is not. -/
 theorem until_time_split_transparent_partial (c : SplitCfg σ) (body : σ → Resume → Burst ℚ σ) (fuel n : Nat)
     (s s' : KState ℚ σ) (v : Val)
     (hu : c.u = s.events.size) (he : c.eid0 = s.eid) (hlt : s.now < c.t)
     (hc : c.Closed s) (hs : SortedAg s) (hns : AllStopFree s) (hB : BodySim c.ρ c.rσ body)
     (hf : c.FuelAlong body fuel s) (h : runUntilTime body fuel n c.t s = .returned v s') :
     v = .none ∧ ∃ k sk, k < n ∧ stepN body fuel k s = .ok sk ∧ s' = c.afterSentinel sk ∧
-      s'.trace = sk.trace.map (rnObs c.ρ) ∧ s'.now = c.t ∧
-      (∀ m rest, popMin sk.agenda = some (m, rest) → (c.rnEntry m).lt c.sentEntry = false) := by
-  obtain ⟨hv, k, sk, hk, h1, h2, _, _, h5⟩ := c.runUntilTime_transparent body fuel n s s' v hu he hlt hc hs hns hB hf h
-  exact ⟨hv, k, sk, hk, h1, h2, by rw [h2]; rfl, by rw [h2]; rfl, h5⟩
+      s'.trace = sk.trace.map (rnObs c.ρ) ∧ s'.now = c.t ∧ AllStopFree s' ∧
+      (∀ j, j < k → ∀ sj m rest, stepN body fuel j s = .ok sj → popMin sj.agenda = some (m, rest) →
+        (m.time < c.t ∨ (m.time = c.t ∧ m.prio = URGENT ∧ m.eid < c.eid0))) ∧
+      (∀ m rest, popMin sk.agenda = some (m, rest) →
+        ¬ (m.time < c.t ∨ (m.time = c.t ∧ m.prio = URGENT ∧ m.eid < c.eid0))) := by
+  obtain ⟨hv, k, sk, hk, h1, h2, _, _, h5, h6, h7⟩ :=
+    c.runUntilTime_transparent body fuel n s s' v hu he hlt hc hs hns hB hf h
+  exact ⟨hv, k, sk, hk, h1, h2, by rw [h2]; rfl, by rw [h2]; rfl, h5, h6, h7⟩
 
 /-- **… and every continuation stays the uninterrupted run with renamed ids, for ever**: `j + 1` further normal steps of
 the uninterrupted run from `sk` are `j + 1` normal steps from the state in which `run(until=t)` returned, to the
@@ -316,11 +322,18 @@ theorem after_time_split_lockstep_partial (c : SplitCfg σ) (body : σ → Resum
       (c.T false sj).trace = sj.trace.map (rnObs c.ρ) :=
   ⟨c.after_split_lockstep body hB fuel j sk sj hi hf h, rfl⟩
 
+/-- **Every program of the script language treats event ids as opaque tokens** (`BodySim` for every renaming): the
+programs the correspondence check generates and runs on the real kernel satisfy the program hypothesis of the stage-3
+theorems, provided the value literals in the program text are not event ids (`ProgsClosed`). -/
+theorem script_programs_are_id_opaque (ρ : EvId → EvId) (progs : Progs ℚ) (h : ProgsClosed progs) :
+    BodySim ρ id (_root_.body progs) :=
+  script_bodySim ρ progs h
+
 /-- the hypotheses of `until_time_split_transparent_partial` are satisfiable: the state `s5` of the demo (after
 `step(); step(); run(until=ev)`) with the split `run(until=6)` -/
 example : ∃ k sk, k < 20 ∧ stepN SplitDemo.body 3 k SplitDemo.s5 = .ok sk ∧
     SplitDemo.s6.trace = sk.trace.map (rnObs SplitDemo.cfg.ρ) ∧ SplitDemo.s6.now = 6 :=
-  let ⟨_, k, sk, hk, h1, _, h3, h4, _⟩ := until_time_split_transparent_partial SplitDemo.cfg SplitDemo.body 3 20
+  let ⟨_, k, sk, hk, h1, _, h3, h4, _, _, _⟩ := until_time_split_transparent_partial SplitDemo.cfg SplitDemo.body 3 20
     SplitDemo.s5 SplitDemo.s6 .none rfl rfl SplitDemo.s5_now SplitDemo.s5_closed SplitDemo.s5_sorted SplitDemo.s5_stopFree
     SplitDemo.cfg_body_sim SplitDemo.s5_fuel SplitDemo.r6_returned
   ⟨k, sk, hk, h1, h3, h4⟩
